@@ -151,7 +151,8 @@ class Stopper:
     rtol: float = 0.0
 
     def stop_early(self, i: int | Array, loss_history: Array):
-        p = self.patience
+        # a patience window cannot be longer than the history
+        p = min(self.patience, loss_history.shape[0])
         lower = jnp.max(jnp.array([i - p + 1, 0]))
         recent_history = jax.lax.dynamic_slice(
             loss_history, start_indices=(lower,), slice_sizes=(p,)
@@ -166,7 +167,7 @@ class Stopper:
         rel_diff = diff / jnp.abs(best_loss_in_recent)
         rel_improvement_is_neglectable = rel_diff <= self.rtol
 
-        current_i_is_after_patience = i > p
+        current_i_is_after_patience = i > self.patience
         """
         Stopping happens only if we actually went through a full patience period.
         """
@@ -192,12 +193,13 @@ class Stopper:
         Recent history includes the last ``p`` iterations looking backwards from the
         current iteration `ì``., where ``p`` is the patience.
         """
-        p = self.patience
+        # a patience window cannot be longer than the history
+        p = min(self.patience, loss_history.shape[0])
         recent_history = jax.lax.dynamic_slice(
             loss_history, start_indices=(i - p + 1,), slice_sizes=(p,)
         )
         imin = jnp.argmin(recent_history)
-        return i - self.patience + imin + 1
+        return i - p + imin + 1
 
 
 def _validate_log_prob_decomposition(
